@@ -75,24 +75,27 @@ static void mh_case(const mhalg_t *a, int fi, uint64_t c, int thorough)
                 rc |= murmur ? ((mh_init2_f) fi_init)(ctx, seed) : ((mh_init_f) fi_init)(ctx);
                 rng_t pr; rng_seed(&pr, mix64(c, 0xfa27 + (uint64_t) route));
                 uint32_t off = 0; int pieces = 0, style = (int) rng_below(&pr, 5);
+                int maxp = rng_below(&pr, 25) == 0 ? 4000 : 40;            /* now and then thousands of tiny updates on one context */
+                if (maxp > 40) style = 5;
                 char part[160] = ""; size_t po = 0;
-                while (off < len || pieces == 0 || (pieces < 40 && rng_below(&pr, 4) == 0)) {
+                while (off < len || pieces == 0 || (pieces < maxp && rng_below(&pr, 4) == 0)) {
                         uint32_t rem = len - off, carried = off & 1023, need = 1024 - carried, k;
                         switch (style == 4 ? (int) rng_below(&pr, 4) : style) {
                         case 0: k = rem; break;
                         case 1: { uint32_t cls = rng_below(&pr, 5); k = cls == 0 ? 0 : cls == 1 ? (need > 1 ? 1 + rng_below(&pr, need - 1) : 0) : cls == 2 ? need : cls == 3 ? need + 1 + rng_below(&pr, 2000) : need + 1024 * rng_below(&pr, 5); break; }
                         case 2: k = rng_below(&pr, rem + 1); break;
+                        case 5: k = rng_below(&pr, 6); break;
                         default: k = rng_below(&pr, 3000); break;
                         }
                         if (k > rem) k = rem;
-                        if (pieces >= 40) k = rem;
+                        if (pieces >= maxp) k = rem;
                         uint32_t cls = k == 0 ? 0 : (carried && k < need) ? 1 : (carried && k == need) ? 2 : (carried ? 3 : (k < 1024 ? 4 : 5));
                         feat(mix64(0x3141, mix64((uint64_t) (a - mhalgs) * 8 + (uint64_t) fi, mix64(carried ? 1 + (carried >> 6) : 0, cls))));
                         rc |= ((mh_upd_f) fu)(ctx, data + off, k);
                         if (po + 8 < sizeof part) po += (size_t) snprintf(part + po, sizeof part - po, "%u,", k);
                         off += k; pieces++;
                         out_count("mh_update_calls", 1);
-                        if (off == len && pieces >= 40) break;
+                        if (off == len && pieces >= maxp) break;
                 }
                 uint32_t dg[8]; uint8_t mur[16];
                 memset(dg, 0xA5, sizeof dg); memset(mur, 0xA5, 16);
